@@ -22,12 +22,39 @@ SID = "sidsidsidsidsid3"
 REPLY_KEY = ["ED25519-V3", "UmVwbHlLZXk="]
 
 
+class LazyPort(object):
+    """a listening port whose stopListening() completes on a later reactor turn, as a real one does"""
+    def __init__(self, reactor, port):
+        self.reactor, self.port = reactor, port
+
+    def getHost(self):
+        return self.port.getHost()
+
+    def startListening(self):
+        pass
+
+    def stopListening(self):
+        from twisted.internet import defer
+        d = defer.Deferred()
+        self.reactor.stops.append(d)
+        return d
+
+
 class PortReactor(proto_helpers.MemoryReactorClock):
     """listenTCP(0, ...) hands out distinct port numbers, like an OS would"""
-    def __init__(self):
+    def __init__(self, lazy=False):
         proto_helpers.MemoryReactorClock.__init__(self)
         self.next = 40001
         self.given = []
+        self.lazy = lazy
+        self.stops = []         # stopListening() calls not yet completed (lazy mode)
+
+    def turn(self):
+        """complete the pending stopListening() calls, one reactor turn each"""
+        n = 0
+        while self.stops and n < 50:
+            n += 1
+            self.stops.pop(0).callback(None)
 
     def listenTCP(self, port, factory, backlog=50, interface=""):
         if port == 0:
@@ -36,7 +63,7 @@ class PortReactor(proto_helpers.MemoryReactorClock):
         self.given.append((port, interface))
         p = proto_helpers.MemoryReactorClock.listenTCP(self, port, factory, backlog, interface)
         p._hostAddress = IPv4Address("TCP", interface or "0.0.0.0", port)
-        return p
+        return LazyPort(self, p) if self.lazy else p
 
 
 def split_key(spec):
@@ -75,7 +102,7 @@ def vector(req):
     d = TorConfig.from_protocol(proto)
     sim.pump()
     config = d.result
-    reactor = PortReactor()
+    reactor = PortReactor(lazy=bool(req.get("asyncports")))
     key = req["key"]
     if key["kind"] == "none":
         pk = None
@@ -108,6 +135,7 @@ def vector(req):
                 warm[0] = 1
                 w = EphemeralAuthenticatedOnionService.create(reactor, config, [8080], auth=auth, version=req["version"])
                 w.addErrback(lambda f: None)
+                reactor.turn()
                 sim.pump()
                 warm[0] = len(adds)
                 reactor.given[:] = []
@@ -117,6 +145,7 @@ def vector(req):
             d = EphemeralOnionService.create(reactor, config, ports, detach=req["detach"], private_key=pk,
                                              version=req["version"], single_hop=req["single"])
         d.addBoth(fired.append)
+        reactor.turn()
         sim.pump()
         # let the descriptor wait finish (non-authenticated services)
         sim.event("650 HS_DESC UPLOAD %s UNKNOWN $%s desc\r\n" % (SID, "AB" * 20))
